@@ -55,6 +55,7 @@ Seen == [u \in Uris |-> cache'[u]]
 Pub(u, v, st) == [k |-> "pub", u |-> u, v |-> v, st |-> st]
 Resp(id, what, u, st) == [k |-> "resp", id |-> id, what |-> what, u |-> u, st |-> st]
 Err(id) == [k |-> "err", id |-> id]
+ErrP(id) == [k |-> "errp", id |-> id]     \* an error response other than "method not found" (invalid parameters)
 
 Record(m) == hist' = Append(hist, m)
 
@@ -114,6 +115,31 @@ UnknownNotif(w) ==
   /\ Record([k |-> "unknotif", w |-> w])
   /\ UNCHANGED <<docs, cache, out, phase, pending>>
 
+\* Well-formed JSON-RPC, but the params do not fit the method (w selects the shape: an empty object, null, no params
+\* member at all, a member of the wrong type, a URI that is none).  For the methods the server implements this is
+\* the one case in which it cannot do what was asked: a request is still a request and is answered (with an error),
+\* a notification is never answered; either way nothing is stored and the server lives on.
+BadShapes == 0..4
+BadParamsReq(w) ==
+  /\ Running /\ "badreq" \in Kinds
+  /\ IF "CrashOnBadParams" \in Deviations
+        THEN phase' = "Crashed" /\ out' = out /\ pending' = pending \cup {Step}
+        ELSE out' = Append(out, ErrP(Step)) /\ UNCHANGED <<phase, pending>>
+  /\ Record([k |-> "badreq", id |-> Step, w |-> w])
+  /\ UNCHANGED <<docs, cache>>
+\* m selects the method: 0 = didOpen, 1 = didChange
+BadParamsNotif(m, w) ==
+  /\ Running /\ "badnotif" \in Kinds
+  /\ Record([k |-> "badnotif", m |-> m, w |-> w])
+  /\ IF "CrashOnBadParams" \in Deviations THEN phase' = "Crashed" ELSE UNCHANGED phase
+  /\ UNCHANGED <<docs, cache, out, pending>>
+
+\* didClose: the server does not implement it - the project keeps the document as it was last edited, nothing is sent
+DidClose(u) ==
+  /\ Running /\ "close" \in Kinds
+  /\ Record([k |-> "close", u |-> u])
+  /\ UNCHANGED <<docs, cache, out, phase, pending>>
+
 ClientResponse ==
   /\ Running /\ "cresp" \in Kinds
   /\ Record([k |-> "cresp", id |-> Step])
@@ -141,6 +167,8 @@ ClientStep == \/ \E u \in Uris, t \in Texts : DidOpen(u, t)
               \/ \E t \in Texts : DidOpenNonFile(t)
               \/ \E u \in Uris \cup {0} : SemTok(u)
               \/ UnknownReq \/ (\E w \in NotifMethods : UnknownNotif(w)) \/ ClientResponse
+              \/ (\E u \in Uris : DidClose(u))
+              \/ (\E w \in BadShapes : BadParamsReq(w)) \/ (\E m \in 0..1, w \in BadShapes : BadParamsNotif(m, w))
 
 \* lsp.rs start_with_connection: with a workspace folder the project is initialised from the .st / .iec files in it
 \* (project.rs initialize) before the first message is handled - exactly as if each had been opened; their memo is
@@ -195,14 +223,16 @@ PublishesMatchNotifications ==
       /\ \A i \in 1..Len(ns) : ps[i].u = ns[i].u /\ ps[i].v = ns[i].v
 
 (* C12 *)
-Requests == {m.id : m \in {hist[i] : i \in {j \in 1..Len(hist) : hist[j].k \in {"semtok", "unkreq", "shutdown"}}}}
-AnswersTo(id) == {i \in 1..Len(out) : out[i].k \in {"resp", "err"} /\ out[i].id = id}
+Requests == {m.id : m \in {hist[i] : i \in {j \in 1..Len(hist) : hist[j].k \in {"semtok", "unkreq", "badreq", "shutdown"}}}}
+AnswersTo(id) == {i \in 1..Len(out) : out[i].k \in {"resp", "err", "errp"} /\ out[i].id = id}
 
 AnswerExactlyOnce == \A id \in Requests \ pending : Cardinality(AnswersTo(id)) = 1
 NoPendingAtRest   == pending = {}
-NeverAnswerNotification == \A i \in 1..Len(out) : out[i].k \in {"resp", "err"} => out[i].id \in Requests
+NeverAnswerNotification == \A i \in 1..Len(out) : out[i].k \in {"resp", "err", "errp"} => out[i].id \in Requests
 UnknownGetsError == \A i \in 1..Len(hist) : hist[i].k = "unkreq" /\ hist[i].id \notin pending =>
                         \E j \in 1..Len(out) : out[j] = Err(hist[i].id)
+BadParamsGetsError == \A i \in 1..Len(hist) : hist[i].k = "badreq" /\ hist[i].id \notin pending =>
+                        \E j \in 1..Len(out) : out[j] = ErrP(hist[i].id)
 Survives == phase # "Crashed"
 ShutdownThenExit == phase = "Exited" => hist[Len(hist)].k = "exit" /\ hist[Len(hist) - 1].k = "shutdown"
 EventuallyAnswered == \A id \in 1..(MaxHist + 2) : (id \in pending) ~> (id \notin pending)
